@@ -1,5 +1,7 @@
 import Driver.Common
 import LachesisVerif.Model.Seeder
+import LachesisVerif.Model.Leecher
+import LachesisVerif.Model.Fetcher
 open Drv
 
 /-! Streams of the `gossip` family. -/
@@ -98,3 +100,251 @@ def step (s : S) (ws : List String) : S × String :=
 
 def stream : StreamDef := { σ := S, init := {}, step := step }
 end Drv.Seed
+
+namespace Drv.Leech
+open Model.Leecher.Base
+
+def natList (s : String) : List Nat := (splitList s).map (fun x => nat! x)
+
+def oracleOf (ws : List String) : Oracle :=
+  { shouldTerminate := (kv ws "st").getD "0" == "1", cands := natList ((kv ws "c").getD "-"), pick := nat! ((kv ws "pick").getD "0") }
+
+def fmtEv : Ev → String
+  | .start p => s!"start:{p}"
+  | .term => "term"
+
+def listOr (l : List String) : String := if l.isEmpty then "-" else ",".intercalate l
+
+def sortNat (l : List Nat) : List Nat :=
+  l.foldr (fun x acc => (acc.takeWhile (· < x)) ++ [x] ++ acc.dropWhile (· < x)) []
+
+def fmt (st : St) (evs : List Ev) : String :=
+  s!"ev={listOr (evs.map fmtEv)} run={listOr (st.running.map toString)} peers={listOr ((sortNat st.peers).map toString)} term={b2s st.terminated}"
+
+def step (st : St) (ws : List String) : St × String :=
+  match ws with
+  | "routine" :: rest => let y := Model.Leecher.Base.step st (.routine (oracleOf rest)); (y.1, fmt y.1 y.2)
+  | ["reg", p] => let y := Model.Leecher.Base.step st (.register (nat! p)); (y.1, fmt y.1 y.2)
+  | "unreg" :: p :: rest => let y := Model.Leecher.Base.step st (.unregister (nat! p) (oracleOf rest)); (y.1, fmt y.1 y.2)
+  | ["terminate"] =>
+    match terminate st with
+    | none => (st, "panic close of closed channel")
+    | some y => (y.1, fmt y.1 y.2)
+  | _ => (st, "bad-op")
+
+def stream : StreamDef := { σ := St, init := {}, step := step }
+end Drv.Leech
+
+namespace Drv.PeerLeech
+open Model.Leecher.Peer
+
+def oracleOf (ws : List String) : Oracle :=
+  { done := (kv ws "done").getD "0" == "1", suspend := (kv ws "susp").getD "0" == "1",
+    processed := Drv.Leech.natList ((kv ws "proc").getD "-") }
+
+def fmt (st : St) (r : Option Nat) : String :=
+  s!"req={(r.map toString).getD "-"} stopped={b2s st.stopped}"
+
+def step (st : Option St) (ws : List String) : Option St × String :=
+  match ws, st with
+  | ["cfg", par], _ =>
+    if nat! par = 0 then (none, "bad-cfg") else (some { parallel := nat! par }, "ok")
+  | _, none => (none, "nocfg")
+  | "chunk" :: id :: rest, some st => let y := Model.Leecher.Peer.step st (.chunk (nat! id) (oracleOf rest)); (some y.1, fmt y.1 y.2)
+  | ["terminate"], some st => let y := Model.Leecher.Peer.step st .terminate; (some y.1, fmt y.1 y.2)
+  | _, _ => (st, "bad-op")
+
+def stream : StreamDef := { σ := Option St, init := none, step := step }
+end Drv.PeerLeech
+
+/-! ### stream `fetch` (judge mode): trace acceptance of one timed scenario of the real Fetcher
+
+The op line is `scen fg=<ForgetTimeout> ar=<ArriveTimeout> ga=<GatherSlack> hl=<HashLimit> | script…`
+(µs). The implementation line is the harness-side event log in the order the events were observed:
+
+    N:t:peer:annTime:ids:accepted:susp   a notification batch was processed (stamped in its OnlyInterested call)
+    F:t:all:interested                   the fetch timer fired (stamped in its OnlyInterested call; `all` = argument)
+    Rc:t:ids / Rd:t:ids                  a received batch was submitted / is known to have been handled
+    Q:t:peer:ids                         an ItemsRequesterFn was called
+    E:t                                  end of the scenario
+
+The judge replays `Model.Fetcher` on the N/F/R events (time stamps and oracle answers as observed) and checks
+* every observed request is one the model issues (exact batch after N; after F any split of the ids the model
+  refetches, each sent to a peer that announced it),
+* every request the model issues is observed before the end of the log,
+* the announced set seen by each timer fire equals the model's,
+* whenever the model's timer is armed, a fire is observed no later than arming time + 2·ArriveTimeout + 300 ms.
+A comparison of the model that falls within 1.5 ms of its threshold makes the scenario inconclusive (`ok borderline`).
+-/
+namespace Drv.Fetch
+open Model.Fetcher
+
+def eps : Nat := 1500
+def slackOf (cfg : Cfg) : Nat := cfg.arrive + 300000
+
+structure J where
+  cfg : Cfg := ⟨0, 0, 0, 0⟩
+  st : St := {}
+  /-- latest moment by which the next fire must have been observed (arming time + arrive), if armed -/
+  dueBy : Option Nat := none
+  pendN : List Request := []
+  pendF : List (Nat × List Nat) := []     -- id, allowed peers
+  pendR : List (List Nat) := []           -- received batches submitted, not yet known to be handled
+  verdict : Option String := none          -- some = decided early
+
+def nats (s : String) : List Nat := (splitList s).map (fun x => nat! x)
+
+def near (a b : Nat) : Bool := (a ≤ b + eps) && (b ≤ a + eps)
+
+/-- is some comparison of this timer fire too close to call? -/
+def borderline (cfg : Cfg) (st : St) (now : Nat) (interested : List Nat) : Bool :=
+  interested.any (fun id =>
+    match findEntry st.announces id with
+    | none => false
+    | some e =>
+      (match e.anns.head? with
+       | some o => near (now - o.time) cfg.forget
+       | none => false) ||
+      (match fget st.fetching id with
+       | some v => near (now - v.2) (cfg.arrive - cfg.gather)
+       | none => false))
+
+def removeFirst (p : Request → Bool) : List Request → Option (List Request)
+  | [] => none
+  | r :: rest => if p r then some rest else (removeFirst p rest).map (r :: ·)
+
+def takeF (peer : Nat) : List Nat → List (Nat × List Nat) → Option (List (Nat × List Nat))
+  | [], pend => some pend
+  | id :: ids, pend =>
+    match pend.find? (fun x => x.1 == id && x.2.contains peer) with
+    | none => none
+    | some x => takeF peer ids (pend.erase x)
+
+def fail (j : J) (msg : String) : J := { j with verdict := some ("FAIL " ++ msg) }
+
+def afterStep (j : J) (now : Nat) (st' : St) : J :=
+  -- a (re)armed timer must fire by now + arrive (+ slack, added at the check)
+  let due := match st'.timer with
+    | none => none
+    | some _ => if st'.timer == j.st.timer then j.dueBy else some (now + j.cfg.arrive)
+  { j with st := st', dueBy := due }
+
+def checkDue (j : J) (now : Nat) (isFire : Bool) : J :=
+  match j.dueBy with
+  | some d =>
+    if d + slackOf j.cfg < now then
+      fail j (if isFire then s!"timer fired late: due by {d}, fired at {now}"
+              else s!"timer did not fire: armed, due by {d}, nothing until {now}; announced {j.st.announces.map (·.id)}")
+    else j
+  | none => j
+
+def event (j : J) (ev : String) : J :=
+  if j.verdict.isSome then j else
+  match ev.splitOn ":" with
+  | ["N", t, peer, annT, _ids, acc, susp] =>
+    let now := nat! t
+    let j := checkDue j now false
+    if j.verdict.isSome then j else
+    let r := notify j.cfg now (nat! peer) (nat! annT) (nats acc) (susp == "1") j.st
+    afterStep { j with pendN := j.pendN ++ r.2 } now r.1
+  | ["F", t, all, intr] =>
+    let now := nat! t
+    let j := checkDue j now true
+    if j.verdict.isSome then j else
+    -- a received batch submitted earlier was handled before this fire iff its announced ids are gone
+    let obs := nats all
+    let j := j.pendR.foldl (fun (j : J) ids =>
+      let rel := ids.filter (fun id => (findEntry j.st.announces id).isSome)
+      if rel.all (fun id => !obs.contains id) then { j with st := received ids j.st, pendR := j.pendR.erase ids } else j) j
+    let modelAll := (j.st.announces.map (·.id)).reverse
+    if modelAll != nats all then fail j s!"announced items at the timer fire t={now}: observed {nats all}, model {modelAll}"
+    else if borderline j.cfg j.st now (nats intr) then { j with verdict := some "ok borderline" }
+    else
+      let r := timerFire j.cfg now (nats intr) (fun _ => 0) j.st
+      let want := r.2.flatMap (fun q => q.ids.map (fun id =>
+        (id, ((findEntry j.st.announces id).map (fun e => e.anns.map (·.peer))).getD [])))
+      -- the timer is re-armed by every fire that leaves announcements
+      let j' := { j with pendF := j.pendF ++ want, st := r.1,
+                         dueBy := if r.1.timer.isSome then some (now + j.cfg.arrive) else none }
+      j'
+  | ["Rc", _, ids] => { j with pendR := j.pendR ++ [nats ids] }
+  | ["Rd", t, ids] =>
+    let now := nat! t
+    let j := checkDue j now false
+    if j.verdict.isSome then j else
+    if j.pendR.contains (nats ids) then afterStep { j with pendR := j.pendR.erase (nats ids) } now (received (nats ids) j.st)
+    else j
+  | ["Q", t, peer, ids] =>
+    let q : Request := ⟨nat! peer, nats ids⟩
+    match removeFirst (fun r => r == q) j.pendN with
+    | some rest => { j with pendN := rest }
+    | none =>
+      match takeF q.peer q.ids j.pendF with
+      | some rest => { j with pendF := rest }
+      | none => fail j s!"request at t={nat! t} to peer {q.peer} for {q.ids} is not one the model allows (pending after notify: {j.pendN.map (fun r => (r.peer, r.ids))}, after timer: {j.pendF})"
+  | ["E", t] =>
+    let j := checkDue j (nat! t) false
+    if j.verdict.isSome then j
+    else if !j.pendN.isEmpty then fail j s!"request never observed: {j.pendN.map (fun r => (r.peer, r.ids))}"
+    else if !j.pendF.isEmpty then fail j s!"timer request never observed for {j.pendF.map (·.1)}"
+    else { j with verdict := some "ok" }
+  | ["S", _, _] => j
+  | ["X", _, _] => j
+  | ["Y", _, _] => j
+  | _ => fail j ("bad event " ++ ev)
+
+/-! The property's own liveness clause, evaluated on the observed trace (independently of the model): an accepted
+    announcement of an item, made at `ta`, must be followed by a request for the item no later than
+    `max ta tu + 2·ArriveTimeout + 300 ms`, where `tu` is the first moment from `ta` on at which the application is
+    not suspended — unless before that bound the item is reported received or not interesting, the announcement
+    reaches the forget timeout, or the scenario ends. (Skipped for tiny hash limits, where announcements may be evicted.) -/
+
+def evTime (ev : String) : Nat := nat! ((ev.splitOn ":").getD 1 "0")
+
+def propertyBound (cfg : Cfg) (evs : List String) : Option String :=
+  if cfg.hashLimit < 64 then none else
+  let rec go : List String → Bool → Option String
+    | [], _ => none
+    | ev :: rest, susp =>
+      match ev.splitOn ":" with
+      | ["S", _, v] => go rest (v == "1")
+      | ["N", t, _, annT, _, acc, _] =>
+        let ta := nat! t
+        let start : Option Nat :=
+          if !susp then some ta
+          else (rest.find? (fun e => e.startsWith "S:" && e.endsWith ":0")).map evTime
+        let bad := (nats acc).find? (fun id =>
+          match start with
+          | none => false
+          | some s =>
+            let d := s + 2 * cfg.arrive + 300000
+            let has := fun (e : String) (tag : String) (k : Nat) =>
+              match e.splitOn ":" with
+              | tg :: tt :: more => tg == tag && nat! tt ≤ d && (nats (more.getD k "-")).contains id
+              | _ => false
+            let requested := rest.any (fun e => has e "Q" 1)
+            let cancelled := rest.any (fun e => has e "Rc" 0 || has e "X" 0 || (e.startsWith "E:" && evTime e ≤ d)) ||
+              nat! annT + cfg.forget ≤ d
+            !requested && !cancelled)
+        match bad with
+        | some id => some s!"FAIL property bound: item {id} announced at t={ta} (not suspended from t={start.getD 0}) was not requested within 2*ArriveTimeout+300ms"
+        | none => go rest susp
+      | _ => go rest susp
+  go evs false
+
+def step (j : J) (ws : List String) : J × String :=
+  match ws with
+  | "scen" :: rest =>
+    let g := fun k => nat! ((kv rest k).getD "0")
+    -- `time.NewTimer(0)`: armed from the start
+    ({ cfg := ⟨g "fg", g "ar", g "ga", g "hl"⟩, st := { timer := some 0 } }, "ok")
+  | [">", "noisy"] => (j, "ok noisy")
+  | ">" :: "log" :: evs =>
+    let j' := evs.foldl event j
+    let v := j'.verdict.getD "FAIL log without end marker"
+    (j', if v.startsWith "FAIL" then v else (propertyBound j.cfg evs).getD v)
+  | ">" :: rest => (j, "FAIL implementation: " ++ " ".intercalate rest)
+  | _ => (j, "bad-op")
+
+def stream : StreamDef := { σ := J, init := {}, step := step }
+end Drv.Fetch
